@@ -52,6 +52,8 @@ var c16Alphabet = []c16Cmd{
 	{"define", "a(5)."},
 	{"define", "Decl a(X) bound [/number]."},
 	{"define", "Decl zz(X) bound [/number]. zz(1)."},
+	{"define", "base(0). base(4). inv(X,Y) :- base(X), Y = fn:div(100, X)."}, // accepted by analysis, fails at evaluation
+	{"define", "ev(Y) :- a(X), Y = fn:div(6, fn:minus(X, 1))."},              // fails at evaluation only when a(1) is live
 	{"load", "a.mg"},
 	{"load", "b.mg"},
 	{"load", "c.mg"},
@@ -63,9 +65,9 @@ var c16Alphabet = []c16Cmd{
 	{"pop", ""},
 }
 
-var c16Small = []int{0, 2, 3, 4, 6, 8, 9, 11, 14, 16}
+var c16Small = []int{0, 2, 3, 4, 6, 8, 9, 10, 11, 13, 16, 18} // p(1), q, r, s, Decl a, base/inv, ev, load a, load b, load t, load dup, pop
 
-var c16Preds = []string{"p", "q", "r", "s", "a", "b", "c", "x", "ta", "tb", "nope", "zz"}
+var c16Preds = []string{"p", "q", "r", "s", "a", "b", "c", "x", "ta", "tb", "nope", "zz", "base", "inv", "ev"}
 
 type c16State struct {
 	loaded      []string // live loaded pathsets
@@ -237,7 +239,7 @@ func c16(r *rt.Run) {
 	_ = firsts
 	_ = jobs
 	os.RemoveAll(root)
-	r.Finish("every command history up to depth d over 17 commands (8 defines incl. declarations, incl. a rejected one and a redefinition, 8 loads incl. parse error, redefinition, evaluation error, temporal file, multi-file pathset; pop), each on a fresh interpreter; " +
+	r.Finish("every command history up to depth d over 19 commands (10 defines incl. declarations, a rejected one, a redefinition and two that pass analysis and fail at evaluation, 8 loads incl. parse error, redefinition, evaluation error, temporal file, multi-file pathset; pop), each on a fresh interpreter; " +
 		"after every command: success/failure and the answers to 11 predicate queries are compared with a fresh interpreter that loads only the live fragments; states = distinct histories, non-trivial = histories with a pop or a failed command")
 }
 
